@@ -156,6 +156,11 @@ func ProcessCreateAlertRequest(ctx *fasthttp.RequestCtx, org_id int64) {
 		return
 	}
 
+	if alertToBeCreated.EvalInterval == 0 {
+		utils.SendError(ctx, "EvalInterval should be greater than zero", fmt.Sprintf("EvalWindow: %v, EvalInterval:%v", alertToBeCreated.EvalWindow, alertToBeCreated.EvalInterval), nil)
+		return
+	}
+
 	if alertToBeCreated.EvalWindow < alertToBeCreated.EvalInterval {
 		utils.SendError(ctx, "EvalWindow should be greater than or equal to EvalInterval", fmt.Sprintf("EvalWindow: %v, EvalInterval:%v", alertToBeCreated.EvalWindow, alertToBeCreated.EvalInterval), nil)
 		return
@@ -420,6 +425,11 @@ func ProcessUpdateAlertRequest(ctx *fasthttp.RequestCtx) {
 	alertToBeUpdated.EvalWindow = input.EvalWindow
 	alertToBeUpdated.EvalInterval = input.EvalInterval
 	alertToBeUpdated.Message = input.Message
+
+	if alertToBeUpdated.EvalInterval == 0 {
+		utils.SendError(ctx, "EvalInterval should be greater than zero", fmt.Sprintf("EvalWindow: %v, EvalInterval:%v", alertToBeUpdated.EvalWindow, alertToBeUpdated.EvalInterval), nil)
+		return
+	}
 
 	if alertToBeUpdated.EvalWindow < alertToBeUpdated.EvalInterval {
 		utils.SendError(ctx, "EvalWindow should be greater than or equal to EvalInterval", fmt.Sprintf("EvalWindow: %v, EvalInterval:%v", alertToBeUpdated.EvalWindow, alertToBeUpdated.EvalInterval), nil)
